@@ -157,6 +157,35 @@ Proof.
   - right. split; [reflexivity|exact Ha].
 Qed.
 
+(* the same statements with the scope written out (the forms restated in Properties/C13.v) *)
+Lemma append_sites_safe_in : forall site, In site append_sites -> in_call_scope site = true ->
+  as_class site = Fresh \/ as_class site = Decoded \/ as_class site = OwnOutput
+  \/ as_class site = PrefixField \/ as_class site = PrefixDerived.
+Proof. intros site H1 H2. exact (append_sites_safe site (conj H1 H2)). Qed.
+Lemma no_append_to_input_in : forall site, In site append_sites -> in_call_scope site = true ->
+  as_class site <> Input /\ as_class site <> Unknown /\ as_class site <> PrivateState.
+Proof. intros site H1 H2. exact (no_append_to_input site (conj H1 H2)). Qed.
+Lemma write_sites_safe_in : forall k site, In (k, site) write_sites -> in_call_scope site = true ->
+  as_class site = Fresh \/ as_class site = Decoded \/ as_class site = OwnOutput.
+Proof. intros k site H1 H2. exact (write_sites_safe k site (conj H1 H2)). Qed.
+Lemma prefix_args_known_in : forall site, In site append_sites -> in_call_scope site = true ->
+  as_class site = PrefixField -> In (as_arg site) prefix_names.
+Proof. intros site H1 H2. exact (prefix_args_known site (conj H1 H2)). Qed.
+(* the table is not empty, and outside the call scope it does contain the dangerous shape *)
+Example table_nonvacuous :
+  (exists site, In site append_sites /\ in_call_scope site = true /\ as_class site = PrefixField
+                /\ as_arg site = "e.keyPrefix")
+  /\ (exists site, In site append_sites /\ in_call_scope site = false /\ as_class site = Input)
+  /\ 40 <= List.length (filter in_call_scope append_sites)
+  /\ 10 <= List.length (filter (fun ks => in_call_scope (snd ks)) write_sites).
+Proof.
+  split; [|split; [|split]].
+  - eexists. split; [right; left; reflexivity|]. repeat split.
+  - eexists. split; [left; reflexivity|]. repeat split.
+  - vm_compute. repeat constructor.
+  - vm_compute. repeat constructor.
+Qed.
+
 (* ---------------------------------------------------------------- 2./3. the machine *)
 Section Machine.
   Variable E : Type.                     (* element type of the arrays *)
